@@ -2,6 +2,9 @@
 both read it, so MANIFEST.json cannot drift from what the driver runs."""
 
 ENV = ["engine/envctl.cpp"]
+ZOO = ["zoo/zoo.cpp"]
+ZOO_DEPS = ["zoo/zoo.hpp", "zoo/describe.hpp", "zoo/categories.inc", "zoo/rows.inc", "zoo/rows_expr.inc", "zoo/rows_types_names.inc",
+            "zoo/rows_stmt_decl.inc", "zoo/rows_forms.inc", "zoo/rows_internals.inc"]
 
 ASSUME_COMMON = [
     "bounded: only histories/inputs inside the stated bounds are covered (small-scope hypothesis)",
@@ -190,6 +193,21 @@ check("C15",
       note="The definitions are those spelled in <ipr/interface> and <ipr/ancillary>.",
       technique="complete enumeration of a finite state space on the implementation; derived operation vs definition on every state",
       engine="explore", design="3/C15")
+
+check("C06",
+      passes=[dict(name="C06", src=["harness/C06.cpp"], shared=ZOO, deps=ZOO_DEPS, variant="fast", shards={"quick": 1, "thorough": 1})],
+      rule="finite configuration space closed completely in both tiers: every node instance built by every row of the factory "
+           "table plus the implementation classes no factory returns (27 built-ins, 5 symbolic constants, decltype(nullptr), empty "
+           "string, reserved-word identifiers, Type_id of composite types, typed-sequence products, homogeneous scopes/regions, singleton "
+           "and heterogeneous overload sets, handler blocks, global namespace) x {category; accept with a visitor overriding all 159 leaf "
+           "hooks + 8 abstract ones; a visitor overriding only the 7 pure sinks; one also overriding visit(Classic); view<K> for all 159 "
+           "K}. distinct_nontrivial = distinct implementation classes (typeid) examined.",
+      text="Complete enumeration of a finite configuration space on the real nodes; expectations are computed from the "
+           "documented interface class of each factory result by std::is_base_of, not from the implementation.",
+      note="The interface class of each row is the return type the factory documents (a row does not compile if the factory "
+           "returns something else). Categories without any instance are listed and force exhaustive:false.",
+      technique="complete enumeration of a finite configuration space on the implementation against expectations derived from the interface types",
+      engine="zoo", design="3/C06")
 
 # Properties not claimed (with the reason that goes to MANIFEST.not_applicable).
 NOT_CLAIMED = {}
